@@ -8,6 +8,12 @@ import NurbsVerif.Lemmas.FitASurfEval
 import NurbsVerif.Lemmas.FitASurfLsq
 import NurbsVerif.Lemmas.FitGuards
 import NurbsVerif.Lemmas.FitWitness
+import NurbsVerif.Lemmas.FitASurfLsqEval
+import NurbsVerif.Lemmas.FitKnotsValid
+import NurbsVerif.Lemmas.FitDiag
+import NurbsVerif.Lemmas.FitKnotsApply
+import NurbsVerif.Lemmas.FitKnots2Span
+import NurbsVerif.Lemmas.FitApproxDiag
 import Mathlib.Algebra.Order.Field.Rat
 
 /-!
@@ -25,7 +31,8 @@ direction for the approximations (with two the code raises `IndexError`, finding
 segment / bilinear patch), `su·sv` data points, and a non-zero total chord length in every data line (otherwise
 `compute_params_curve` raises `ZeroDivisionError`, while the model's `x / 0 = 0` would go on).  `Geomdl.lsqError` / `Geomdl.lsqErrorEval` (Lemmas/FitApprox*.lean) are the
 spec-level sums `Σ_{k=1}^{nd−2} |Q_k − C(ū_k)|²` (with `C` written as `Σ_j N_{j,p} P_j` through
-`basis_function_one`, resp. with `C` the evaluated curve point of A3.1).
+`basis_function_one`, resp. with `C` the evaluated curve point of A3.1).  `Geomdl.ClampedKnots p n kv` (Lemmas/FitKnotsValid.lean,
+unfolded by `clampedKnots_spec`) bundles what makes `kv` a valid clamped knot vector with simple interior knots.
 -/
 namespace C11
 open Geomdl Lin Finset
@@ -531,6 +538,353 @@ theorem lsqLine_minimises (p : ℕ) (U : ℕ → K) (m : ℕ) (uk : List K) (lin
         ((ptsGet line k).getD c 0 - ∑ j ∈ range cp.length, basisFunOne p U m j (uk.getD k 0) * (ptsGet cp j).getD c 0) = 0) :=
   ⟨fun y hy => h.minimises hnc2 y hy, fun i hi1 hi2 c hc => h.orthogonal hnc2 i hi1 hi2 c hc⟩
 
+/-! ### the passes of `approximate_surface` against the EVALUATED curve of each line -/
+
+/-- **A least-squares polygon minimises the distance to the evaluated curve**: if `cp` solves the normal equations of a
+    data line (`IsLsqLine`), the knot function is non-decreasing, the interior parameters lie in the half-open domain
+    `[U_p, U_nc)` and `basis_function_one` returns the Cox–de Boor values there (`hB`, theorem `basisFunOne_eq_cdb` of
+    C03), then `Σ_{k=1}^{nd−2} |Q_k − C(ū_k)|²` with `C` the B-spline curve EVALUATED through the span search and A3.1
+    (`Geomdl.lsqErrorEval`) is least for `cp` among all polygons with the same two ends and `nc − 2` interior points. -/
+theorem lsqLine_minimises_evaluated (p : ℕ) (U : ℕ → K) (m : ℕ) (uk : List K) (line : List (List K)) (nc d : ℕ)
+    (cp : List (List K)) (h : IsLsqLine p U m uk line nc d cp) (hnc3 : 3 ≤ nc) (hpn : p + 1 ≤ nc)
+    (hline : NetOk d line) (hne : 0 < line.length) (hm : Monotone U)
+    (hdom : ∀ k, 1 ≤ k → k + 1 < line.length → U p ≤ uk.getD k 0 ∧ uk.getD k 0 < U nc)
+    (hB : ∀ k, 1 ≤ k → k + 1 < line.length → ∀ j, j < nc →
+      basisFunOne p U m j (uk.getD k 0) = Blossom.cdb U p j (uk.getD k 0))
+    (y : List (List K)) (hy : y.length = nc - 2) (hyd : NetOk d y) :
+    lsqErrorEval p U uk line d cp ≤ lsqErrorEval p U uk line d ([line.headD []] ++ y ++ [line.getLastD []]) :=
+  h.minimises_evaluated (by omega) hpn hline hne hm hdom hB y hy hyd
+
+/-- **One pass of A9.7 as coded, evaluated form, no hypothesis on the knot vector**: for a line of `nd` data points with
+    parameters that run strictly increasing from 0 to 1 (what `compute_params_surface` returns for data whose
+    consecutive points are distinct) and the knot vector of `compute_knot_vector2` for them, whenever `lu_solve`
+    returns, the polygon computed by the pass (`Geomdl.lsqPass`: ends copied, interior control points from the normal
+    equations) minimises the summed squared distance between the interior data points and the EVALUATED B-spline curve
+    at their parameters, among all polygons with the same two end points (at least three control points: with two the
+    code raises, F-11a). -/
+theorem lsqPass_least_squares (p nc : ℕ) (uk : List K) (line : List (List K)) (fl : K → ℕ) (d : ℕ)
+    (cp : List (List K)) (hfl : IsFloor fl) (hp : 1 ≤ p) (hpn : p + 1 ≤ nc) (hnc3 : 3 ≤ nc) (hnd : nc ≤ line.length)
+    (hlen : uk.length = line.length) (hline : NetOk d line)
+    (hfirst : uk.getD 0 0 = 0) (hlast : uk.getD (line.length - 1) 0 = 1)
+    (hstrict : ∀ i j, i < j → j < line.length → uk.getD i 0 < uk.getD j 0)
+    (h : lsqPass p (fnOf (computeKnotVector2 p line.length nc uk fl)) (computeKnotVector2 p line.length nc uk fl).length
+          uk line nc d = some cp)
+    (y : List (List K)) (hy : y.length = nc - 2) (hyd : NetOk d y) :
+    lsqErrorEval p (fnOf (computeKnotVector2 p line.length nc uk fl)) uk line d cp
+      ≤ lsqErrorEval p (fnOf (computeKnotVector2 p line.length nc uk fl)) uk line d
+          ([line.headD []] ++ y ++ [line.getLastD []]) :=
+  Geomdl.lsqPass_least_squares p nc uk line fl d cp hfl hp hpn hnd hlen hline hfirst hlast hstrict h y hy hyd
+
+/-- **Both passes of `approximate_surface` are least-squares fits against the EVALUATED curves of their lines** (A9.7 as
+    coded, data whose consecutive points are distinct in both directions: every chord length positive): whenever it
+    returns, there are the `sv` column polygons `cols` computed by the first pass (`lsqPass` on the data column
+    `Q_{0,j} … Q_{su−1,j}`, parameters `ū`, knot vector `kvu`) and the `ncu` row polygons `rows` computed by the second
+    pass (`lsqPass` on the line of the `i`-th points of the columns, parameters `v̄`, knot vector `kvv`; the control net
+    is the concatenation of the rows), and for EACH line the interior control points computed minimise
+    `Σ_{k interior} |Q_k − C(ū_k)|²`, `C` the B-spline curve of the line evaluated through the span search / A3.1, among
+    ALL choices `y` of the `nc − 2` interior control points with the two end control points fixed.  (A least-squares
+    statement for the surface as a whole is not true of A9.7.) -/
+theorem approximateSurface_passes_least_squares (pu pv su sv : ℕ) (pts : List (List K)) (cdsU cdsV : List (List K))
+    (ncu ncv : ℕ) (fl : K → ℕ) (kvu kvv : List K) (cp : List (List K)) (d : ℕ)
+    (hfl : IsFloor fl) (hg : ApproxSurfOk pu pv su sv pts cdsU cdsV ncu ncv) (hP : NetOk d pts)
+    (hcU : ∀ c ∈ cdsU, ∀ x ∈ c, 0 < x) (hcV : ∀ c ∈ cdsV, ∀ x ∈ c, 0 < x)
+    (h : approximateSurface pu pv su sv pts cdsU cdsV ncu ncv fl = some (kvu, kvv, cp)) :
+    ∃ cols rows : List (List (List K)), cols.length = sv ∧ rows.length = ncu ∧ cp = rows.flatten ∧
+      (∀ j, j < sv →
+        lsqPass pu (fnOf kvu) kvu.length (averageParams cdsU su)
+          ((List.range su).map (fun i => pts.getD (j + sv * i) [])) ncu (pts.headD []).length = some (cols.getD j []) ∧
+        ∀ y : List (List K), y.length = ncu - 2 → NetOk d y →
+          lsqErrorEval pu (fnOf kvu) (averageParams cdsU su) ((List.range su).map (fun i => pts.getD (j + sv * i) [])) d
+              (cols.getD j [])
+            ≤ lsqErrorEval pu (fnOf kvu) (averageParams cdsU su) ((List.range su).map (fun i => pts.getD (j + sv * i) [])) d
+              ([pts.getD j []] ++ y ++ [pts.getD (j + sv * (su - 1)) []])) ∧
+      (∀ i, i < ncu →
+        lsqPass pv (fnOf kvv) kvv.length (averageParams cdsV sv)
+          ((List.range sv).map (fun j => (cols.getD j []).getD i [])) ncv (pts.headD []).length = some (rows.getD i []) ∧
+        ∀ y : List (List K), y.length = ncv - 2 → NetOk d y →
+          lsqErrorEval pv (fnOf kvv) (averageParams cdsV sv) ((List.range sv).map (fun j => (cols.getD j []).getD i [])) d
+              (rows.getD i [])
+            ≤ lsqErrorEval pv (fnOf kvv) (averageParams cdsV sv) ((List.range sv).map (fun j => (cols.getD j []).getD i [])) d
+              ([(cols.getD 0 []).getD i []] ++ y ++ [(cols.getD (sv - 1) []).getD i []])) :=
+  Geomdl.approximateSurface_passes_least_squares pu pv su sv pts cdsU cdsV ncu ncv fl kvu kvv cp d hfl hg.pu1 hg.pv1
+    hg.pun hg.pvn hg.ndu hg.ndv hg.len hP (hg.chords hcU hcV).1 (hg.chords hcU hcV).2 h
+
+/-- what `lsqErrorEval` is: the sum over the interior data points `k = 1 … nd − 2` and the coordinates `c < d` of the
+    squared difference between the data point and the curve point `curvePoint` (span by `find_span_linear`, A2.2, A3.1)
+    at the `k`-th parameter -/
+theorem lsqErrorEval_spec (p : ℕ) (U : ℕ → K) (uk : List K) (pts : List (List K)) (d : ℕ) (P : List (List K)) :
+    lsqErrorEval p U uk pts d P
+      = ∑ k ∈ Ico 1 (pts.length - 1), ∑ c ∈ range d,
+          ((ptsGet pts k).getD c 0 - (curvePoint p U P (uk.getD k 0)).getD c 0) ^ 2 := rfl
+
+/-! ### the knot vectors are valid clamped knot vectors -/
+
+/-- what `Geomdl.ClampedKnots p n kv` says: `n + p + 1` knots; the first `p + 1` are `0`; the last `p + 1` (everything
+    from index `n` on) are `1`; non-decreasing; every interior knot strictly inside `(0, 1)`; the knots
+    `U_p < U_{p+1} < … < U_n` strictly increasing (simple interior knots, non-empty first and last span). -/
+theorem clampedKnots_spec (p n : ℕ) (kv : List K) :
+    ClampedKnots p n kv ↔
+      kv.length = n + p + 1 ∧ (∀ i, i ≤ p → fnOf kv i = 0) ∧ (∀ i, n ≤ i → fnOf kv i = 1) ∧ Monotone (fnOf kv) ∧
+      (∀ i, p < i → i < n → 0 < fnOf kv i ∧ fnOf kv i < 1) ∧ (∀ i, p ≤ i → i < n → fnOf kv i < fnOf kv (i + 1)) :=
+  ⟨fun h => ⟨h.length, h.zeros, h.ones, h.mono, h.interior, h.strict⟩,
+   fun h => ⟨h.1, h.2.1, h.2.2.1, h.2.2.2.1, h.2.2.2.2.1, h.2.2.2.2.2⟩⟩
+
+/-- … such a list is accepted by the library's own validator `knotvector.check(degree, kv, num_ctrlpts)`. -/
+theorem clampedKnots_check (p n : ℕ) (kv : List K) (h : ClampedKnots p n kv) : knotCheck p kv n = true := h.check
+
+/-- The averaged knot vector (Eq. 9.8) is non-decreasing for non-decreasing parameters in `[0, 1]` whenever
+    `0 ≤ invp` and `invp · p ≤ 1` – no condition on the last parameter is left.  (The double `1.0/p` is `≤ 1/p` for
+    `p = 1, 2, 3, 4, 6, 7, 8, 9`, see the examples.) -/
+theorem knotVector_monotone_le (p n : ℕ) (uk : List K) (invp : K) (hpn : p + 1 ≤ n)
+    (hinv : 0 ≤ invp) (hinv1 : invp * (p : K) ≤ 1) (h0 : ∀ i, 0 ≤ uk.getD i 0) (h1 : ∀ i, uk.getD i 0 ≤ 1)
+    (hmono : ∀ i j, i ≤ j → j < n → uk.getD i 0 ≤ uk.getD j 0) :
+    Monotone (fnOf (computeKnotVector p n uk invp)) :=
+  computeKnotVector_mono_le p n uk invp hpn hinv hinv1 h0 h1 hmono
+
+/-- **exact `1/p`**: with `invp = 1/p` the averaged knot vector is non-decreasing for non-decreasing parameters in
+    `[0, 1]`, no residual hypothesis. -/
+theorem knotVector_monotone_exact (p n : ℕ) (uk : List K) (hp : 1 ≤ p) (hpn : p + 1 ≤ n)
+    (h0 : ∀ i, 0 ≤ uk.getD i 0) (h1 : ∀ i, uk.getD i 0 ≤ 1)
+    (hmono : ∀ i j, i ≤ j → j < n → uk.getD i 0 ≤ uk.getD j 0) :
+    Monotone (fnOf (computeKnotVector p n uk (1 / (p : K)))) := by
+  have hpK : (0 : K) < (p : K) := by exact_mod_cast hp
+  exact computeKnotVector_mono_le p n uk _ hpn (le_of_lt (one_div_pos.mpr hpK))
+    (le_of_eq (one_div_mul_cancel (ne_of_gt hpK))) h0 h1 hmono
+
+/-- **`invp` the double nearest to `1/p`, rounded up**: if `invp · p ≤ 1 + e` and the gap between the last two
+    parameters is at least `e ≥ 0`, the averaged knot vector is non-decreasing (`e = 2⁻⁵³` covers every double
+    `1.0/p`; the gap is the share of the last chord in the total chord length). -/
+theorem knotVector_monotone_near (p n : ℕ) (uk : List K) (invp e : K) (hpn : p + 1 ≤ n) (hinv : 0 ≤ invp) (he : 0 ≤ e)
+    (hinv1 : invp * (p : K) ≤ 1 + e) (hgap : e ≤ 1 - uk.getD (n - 2) 0) (h0 : ∀ i, 0 ≤ uk.getD i 0)
+    (hmono : ∀ i j, i ≤ j → j < n → uk.getD i 0 ≤ uk.getD j 0) :
+    Monotone (fnOf (computeKnotVector p n uk invp)) :=
+  computeKnotVector_mono_near p n uk invp e hpn hinv he hinv1 hgap h0 hmono
+
+/-- **`compute_knot_vector` (Eq. 9.8) builds a valid clamped knot vector** for parameters that run strictly increasing
+    from 0 to 1, `0 < invp` and `invp · p ≤ 1`: right length, `p + 1` zeros, `p + 1` ones, non-decreasing, every
+    interior knot strictly inside `(0, 1)`, interior knots pairwise different. -/
+theorem knotVector_valid (p n : ℕ) (uk : List K) (invp : K) (hp : 1 ≤ p) (hpn : p + 1 ≤ n)
+    (hinv : 0 < invp) (hinv1 : invp * (p : K) ≤ 1)
+    (hlen : uk.length = n) (hfirst : uk.getD 0 0 = 0) (hlast : uk.getD (n - 1) 0 = 1)
+    (hstrict : ∀ i j, i < j → j < n → uk.getD i 0 < uk.getD j 0) :
+    ClampedKnots p n (computeKnotVector p n uk invp) :=
+  computeKnotVector_clampedKnots p n uk invp hp hpn hinv hinv1 hlen hfirst hlast hstrict
+
+/-- … with `invp = 1/p` exactly: no hypothesis on `invp` left. -/
+theorem knotVector_valid_exact (p n : ℕ) (uk : List K) (hp : 1 ≤ p) (hpn : p + 1 ≤ n)
+    (hlen : uk.length = n) (hfirst : uk.getD 0 0 = 0) (hlast : uk.getD (n - 1) 0 = 1)
+    (hstrict : ∀ i j, i < j → j < n → uk.getD i 0 < uk.getD j 0) :
+    ClampedKnots p n (computeKnotVector p n uk (1 / (p : K))) := by
+  have hpK : (0 : K) < (p : K) := by exact_mod_cast hp
+  exact computeKnotVector_clampedKnots p n uk _ hp hpn (one_div_pos.mpr hpK)
+    (le_of_eq (one_div_mul_cancel (ne_of_gt hpK))) hlen hfirst hlast hstrict
+
+/-- … and with `invp` rounded up (`invp · p ≤ 1 + e`, `0 ≤ e ≤ 1 − ū_{n−2}`). -/
+theorem knotVector_valid_near (p n : ℕ) (uk : List K) (invp e : K) (hp : 1 ≤ p) (hpn : p + 1 ≤ n)
+    (hinv : 0 < invp) (he : 0 ≤ e) (hinv1 : invp * (p : K) ≤ 1 + e) (hgap : e ≤ 1 - uk.getD (n - 2) 0)
+    (hlen : uk.length = n) (hfirst : uk.getD 0 0 = 0) (hlast : uk.getD (n - 1) 0 = 1)
+    (hstrict : ∀ i j, i < j → j < n → uk.getD i 0 < uk.getD j 0) :
+    ClampedKnots p n (computeKnotVector p n uk invp) :=
+  computeKnotVector_clampedKnots_near p n uk invp e hp hpn hinv he hinv1 hgap hlen hfirst hlast hstrict
+
+/-- **`compute_knot_vector2` (Eqs. 9.68–9.69) builds a valid clamped knot vector** for parameters that run strictly
+    increasing from 0 to 1 (`fl` = `int(·)` with `fl x ≤ x < fl x + 1` on non-negative `x`, `d = nd/(nc − p)` and
+    `alpha = j·d − int(j·d)` exact; at most as many control points as data points): right length, `p + 1` zeros,
+    `p + 1` ones, non-decreasing, every interior knot strictly inside `(0, 1)`, interior knots pairwise different. -/
+theorem knotVector2_valid (p nd nc : ℕ) (uk : List K) (fl : K → ℕ) (hfl : IsFloor fl)
+    (hp : 1 ≤ p) (hpn : p + 1 ≤ nc) (hnd : nc ≤ nd)
+    (hlen : uk.length = nd) (hfirst : uk.getD 0 0 = 0) (hlast : uk.getD (nd - 1) 0 = 1)
+    (hstrict : ∀ i j, i < j → j < nd → uk.getD i 0 < uk.getD j 0) :
+    ClampedKnots p nc (computeKnotVector2 p nd nc uk fl) :=
+  computeKnotVector2_clampedKnots hfl uk nd hstrict p nc hp hpn hnd hlen hfirst hlast
+
+/-- **`interpolate_curve` returns a valid clamped knot vector** on data with distinct consecutive points (positive
+    chord lengths) when `0 < invp` and `invp · p ≤ 1`. -/
+theorem interpolateCurve_knots_valid (p : ℕ) (pts : List (List K)) (cds : List K) (invp : K)
+    (kv : List K) (cp : List (List K)) (hg : InterpCurveOk p pts cds) (hpos : ∀ x ∈ cds, 0 < x)
+    (hinv : 0 < invp) (hinv1 : invp * (p : K) ≤ 1)
+    (h : interpolateCurve p pts cds invp = some (kv, cp)) : ClampedKnots p pts.length kv :=
+  interpolateCurve_clampedKnots p pts cds invp kv cp hg.p1 hg.pn hg.len hpos hinv hinv1 h
+
+/-- … with `invp = 1/p` exactly: the only hypotheses are the guard and the positive chord lengths. -/
+theorem interpolateCurve_knots_valid_exact (p : ℕ) (pts : List (List K)) (cds : List K)
+    (kv : List K) (cp : List (List K)) (hg : InterpCurveOk p pts cds) (hpos : ∀ x ∈ cds, 0 < x)
+    (h : interpolateCurve p pts cds (1 / (p : K)) = some (kv, cp)) : ClampedKnots p pts.length kv := by
+  have hpK : (0 : K) < (p : K) := by exact_mod_cast hg.p1
+  exact interpolateCurve_clampedKnots p pts cds _ kv cp hg.p1 hg.pn hg.len hpos (one_div_pos.mpr hpK)
+    (le_of_eq (one_div_mul_cancel (ne_of_gt hpK))) h
+
+/-- … and with `invp` the double `1.0/p` rounded up: `invp · p ≤ 1 + e` where the last chord is at least the share `e`
+    of the total chord length (`e · Σ chords ≤ last chord`; `e = 2⁻⁵³` covers every degree). -/
+theorem interpolateCurve_knots_valid_near (p : ℕ) (pts : List (List K)) (cds : List K) (invp e : K)
+    (kv : List K) (cp : List (List K)) (hg : InterpCurveOk p pts cds) (hpos : ∀ x ∈ cds, 0 < x)
+    (hinv : 0 < invp) (he : 0 ≤ e) (hinv1 : invp * (p : K) ≤ 1 + e) (hlastc : e * sumL cds ≤ cds.getLastD 0)
+    (h : interpolateCurve p pts cds invp = some (kv, cp)) : ClampedKnots p pts.length kv :=
+  interpolateCurve_clampedKnots_near p pts cds invp e kv cp hg.p1 hg.pn hg.len hpos hinv he hinv1 hlastc h
+
+/-- … the same in the form "`invp` is within the relative distance `e` of `1/p`": `|invp · p − 1| ≤ e < 1` (the double
+    nearest to `1/p`: `e = 2⁻⁵³`) and the last chord is at least the share `e` of the total chord length – the guard, the
+    positive chord lengths and this rounding bound are the only hypotheses. -/
+theorem interpolateCurve_knots_valid_double (p : ℕ) (pts : List (List K)) (cds : List K) (invp e : K)
+    (kv : List K) (cp : List (List K)) (hg : InterpCurveOk p pts cds) (hpos : ∀ x ∈ cds, 0 < x)
+    (habs : |invp * (p : K) - 1| ≤ e) (he1 : e < 1) (hlastc : e * sumL cds ≤ cds.getLastD 0)
+    (h : interpolateCurve p pts cds invp = some (kv, cp)) : ClampedKnots p pts.length kv :=
+  interpolateCurve_clampedKnots_double p pts cds invp e kv cp hg.p1 hg.pn hg.len hpos habs he1 hlastc h
+
+/-- **`interpolate_surface` returns two valid clamped knot vectors** on data whose consecutive points are distinct in
+    both directions (`0 < invp`, `invp · p ≤ 1` per direction). -/
+theorem interpolateSurface_knots_valid (pu pv su sv : ℕ) (pts : List (List K)) (cdsU cdsV : List (List K))
+    (invpu invpv : K) (kvu kvv : List K) (cp : List (List K)) (hg : InterpSurfOk pu pv su sv pts cdsU cdsV)
+    (hcU : ∀ c ∈ cdsU, ∀ x ∈ c, 0 < x) (hcV : ∀ c ∈ cdsV, ∀ x ∈ c, 0 < x)
+    (hiu : 0 < invpu) (hiu1 : invpu * (pu : K) ≤ 1) (hiv : 0 < invpv) (hiv1 : invpv * (pv : K) ≤ 1)
+    (h : interpolateSurface pu pv su sv pts cdsU cdsV invpu invpv = some (kvu, kvv, cp)) :
+    ClampedKnots pu su kvu ∧ ClampedKnots pv sv kvv :=
+  interpolateSurface_clampedKnots pu pv su sv pts cdsU cdsV invpu invpv kvu kvv cp hg.pu1 hg.pv1 hg.pun hg.pvn
+    (hg.chords hcU hcV).1 (hg.chords hcU hcV).2 hiu hiu1 hiv hiv1 h
+
+/-- **`approximate_curve` returns a valid clamped knot vector** on data with distinct consecutive points. -/
+theorem approximateCurve_knots_valid (p : ℕ) (pts : List (List K)) (cds : List K) (nc : ℕ) (fl : K → ℕ)
+    (kv : List K) (cp : List (List K)) (hfl : IsFloor fl) (hg : ApproxCurveOk p pts cds nc)
+    (hpos : ∀ x ∈ cds, 0 < x) (h : approximateCurve p pts cds nc fl = some (kv, cp)) : ClampedKnots p nc kv :=
+  approximateCurve_clampedKnots p pts cds nc fl kv cp hfl hg.p1 hg.pn hg.nd hg.len hpos h
+
+/-- **`approximate_surface` returns two valid clamped knot vectors** on data whose consecutive points are distinct in
+    both directions. -/
+theorem approximateSurface_knots_valid (pu pv su sv : ℕ) (pts : List (List K)) (cdsU cdsV : List (List K))
+    (ncu ncv : ℕ) (fl : K → ℕ) (kvu kvv : List K) (cp : List (List K)) (hfl : IsFloor fl)
+    (hg : ApproxSurfOk pu pv su sv pts cdsU cdsV ncu ncv)
+    (hcU : ∀ c ∈ cdsU, ∀ x ∈ c, 0 < x) (hcV : ∀ c ∈ cdsV, ∀ x ∈ c, 0 < x)
+    (h : approximateSurface pu pv su sv pts cdsU cdsV ncu ncv fl = some (kvu, kvv, cp)) :
+    ClampedKnots pu ncu kvu ∧ ClampedKnots pv ncv kvv :=
+  approximateSurface_clampedKnots pu pv su sv pts cdsU cdsV ncu ncv fl kvu kvv cp hfl hg.pu1 hg.pv1 hg.pun hg.pvn
+    hg.ndu hg.ndv (hg.chords hcU hcV).1 (hg.chords hcU hcV).2 h
+
+/-! ### Schoenberg–Whitney direction: the collocation matrix has a positive diagonal -/
+
+/-- **B-spline basis functions are positive inside their support**: for a non-decreasing knot function,
+    `N_{i,p}(u) > 0` (Cox–de Boor, half-open convention) when `U_i ≤ u < U_{i+p+1}` and either `U_i < u` or
+    `U_{i+p} ≤ u` (the latter: `u = U_i` is a knot of multiplicity `p + 1`, e.g. the start of a clamped vector). -/
+theorem basis_pos_in_support (U : ℕ → K) (hm : Monotone U) (u : K) (p i : ℕ)
+    (h1 : U i ≤ u) (h2 : u < U (i + p + 1)) (h3 : U i < u ∨ U (i + p) ≤ u) : 0 < Blossom.cdb U p i u :=
+  cdb_pos U hm u p i h1 h2 h3
+
+/-- **Schoenberg–Whitney positions**: for the averaged knot vector with `invp · p = 1` and parameters that run strictly
+    increasing from 0 to 1, every interior parameter lies strictly inside the support of its own basis function,
+    `U_i < ū_i < U_{i+p+1}` (`0 < i < n − 1`). -/
+theorem averaged_schoenberg_whitney (p n : ℕ) (uk : List K) (invp : K) (hp : 1 ≤ p) (hpn : p + 1 ≤ n)
+    (hinv : invp * (p : K) = 1) (hfirst : uk.getD 0 0 = 0) (hlast : uk.getD (n - 1) 0 = 1)
+    (hstrict : ∀ i j, i < j → j < n → uk.getD i 0 < uk.getD j 0) (i : ℕ) (hi1 : 1 ≤ i) (hi2 : i + 1 < n) :
+    fnOf (computeKnotVector p n uk invp) i < uk.getD i 0 ∧
+    uk.getD i 0 < fnOf (computeKnotVector p n uk invp) (i + p + 1) :=
+  Geomdl.averaged_schoenberg_whitney p n uk invp hp hpn hinv hfirst hlast hstrict i hi1 hi2
+
+/-- **The collocation matrix of `interpolate_curve` has a positive diagonal** (`N_{i,p}(ū_i) > 0` for EVERY data point,
+    entries as computed by `_build_coeff_matrix`: `find_span_linear` + A2.2) on data with distinct consecutive points
+    and `invp · p = 1` – a necessary condition for the matrix to be non-singular (no solver hypothesis here: the matrix
+    is built before `lu_solve` runs).  Non-singularity itself (total positivity) is not proved. -/
+theorem interpolateCurve_collocation_diag_pos (p : ℕ) (pts : List (List K)) (cds : List K) (invp : K)
+    (hg : InterpCurveOk p pts cds) (hpos : ∀ x ∈ cds, 0 < x) (hinv : invp * (p : K) = 1) (i : ℕ) (hi : i < pts.length) :
+    0 < ent (buildCoeffMatrix p (fnOf (computeKnotVector p pts.length (computeParams cds) invp))
+          (computeParams cds) pts.length) i i := by
+  have hl := hg.len
+  have hpn := hg.pn
+  rw [← hl] at hi ⊢
+  exact interpolateCurve_diag_pos p cds invp hg.p1 (by omega) hpos hinv i hi
+
+/-- … and so have the two collocation matrices of `interpolate_surface` (averaged parameters of
+    `compute_params_surface`, data whose consecutive points are distinct in both directions, `invp · p = 1`). -/
+theorem interpolateSurface_collocation_diag_pos (pu pv su sv : ℕ) (pts : List (List K)) (cdsU cdsV : List (List K))
+    (invpu invpv : K) (hg : InterpSurfOk pu pv su sv pts cdsU cdsV)
+    (hcU : ∀ c ∈ cdsU, ∀ x ∈ c, 0 < x) (hcV : ∀ c ∈ cdsV, ∀ x ∈ c, 0 < x)
+    (hiu : invpu * (pu : K) = 1) (hiv : invpv * (pv : K) = 1) :
+    (∀ i, i < su → 0 < ent (buildCoeffMatrix pu (fnOf (computeKnotVector pu su (averageParams cdsU su) invpu))
+          (averageParams cdsU su) su) i i) ∧
+    (∀ j, j < sv → 0 < ent (buildCoeffMatrix pv (fnOf (computeKnotVector pv sv (averageParams cdsV sv) invpv))
+          (averageParams cdsV sv) sv) j j) :=
+  ⟨fun i hi => interpolateSurface_diag_pos pu su cdsU invpu hg.pu1 hg.pun (hg.chords hcU hcV).1 hiu i hi,
+   fun j hj => interpolateSurface_diag_pos pv sv cdsV invpv hg.pv1 hg.pvn (hg.chords hcU hcV).2 hiv j hj⟩
+
+/-- **`compute_knot_vector2` "ensures that every knot span has at least one ū_k"** (its docstring; The NURBS Book p. 412):
+    for parameters that run strictly increasing from 0 to 1 and every span index `p ≤ s < nc` there is a parameter with
+    `U_s ≤ ū_k < U_{s+1}` (`fl` = `int(·)`; at most as many control points as data points, i.e. `d = nd/(nc−p) ≥ 1`). -/
+theorem knotVector2_span_has_param (p nd nc : ℕ) (uk : List K) (fl : K → ℕ) (hfl : IsFloor fl)
+    (hp : 1 ≤ p) (hpn : p + 1 ≤ nc) (hnd : nc ≤ nd) (hlen : uk.length = nd)
+    (hfirst : uk.getD 0 0 = 0) (hlast : uk.getD (nd - 1) 0 = 1)
+    (hstrict : ∀ i j, i < j → j < nd → uk.getD i 0 < uk.getD j 0) (s : ℕ) (hs1 : p ≤ s) (hs2 : s < nc) :
+    ∃ k, k < nd ∧ fnOf (computeKnotVector2 p nd nc uk fl) s ≤ uk.getD k 0 ∧
+      uk.getD k 0 < fnOf (computeKnotVector2 p nd nc uk fl) (s + 1) :=
+  computeKnotVector2_span_has_param p nd nc uk fl hfl hp hpn hnd hlen hfirst hlast hstrict s hs1 hs2
+
+/-- **`approximate_curve`: every knot span of the returned knot vector contains a parameter** (data with distinct
+    consecutive points). -/
+theorem approximateCurve_span_has_param (p : ℕ) (pts : List (List K)) (cds : List K) (nc : ℕ) (fl : K → ℕ)
+    (kv : List K) (cp : List (List K)) (hfl : IsFloor fl) (hg : ApproxCurveOk p pts cds nc) (hpos : ∀ x ∈ cds, 0 < x)
+    (h : approximateCurve p pts cds nc fl = some (kv, cp)) (s : ℕ) (hs1 : p ≤ s) (hs2 : s < nc) :
+    ∃ k, k < pts.length ∧ fnOf kv s ≤ (computeParams cds).getD k 0 ∧ (computeParams cds).getD k 0 < fnOf kv (s + 1) := by
+  have hl := hg.len
+  have hnd := hg.nd
+  rw [(approximateCurve_normal p pts cds nc fl kv cp hg.nd h).1, ← hl]
+  exact Geomdl.approximateCurve_span_has_param p cds nc fl hfl hg.p1 hg.pn (by omega) hpos s hs1 hs2
+
+/-- **Every interior basis function is positive at an interior parameter** (`compute_knot_vector2`, parameters that run
+    strictly increasing from 0 to 1, at least three control points): the matrix `N` of the least-squares fit has no
+    zero column (`basis_function_one` values). -/
+theorem knotVector2_column_pos (p nd nc : ℕ) (uk : List K) (fl : K → ℕ) (hfl : IsFloor fl)
+    (hp : 1 ≤ p) (hpn : p + 1 ≤ nc) (hnc3 : 3 ≤ nc) (hnd : nc ≤ nd) (hlen : uk.length = nd)
+    (hfirst : uk.getD 0 0 = 0) (hlast : uk.getD (nd - 1) 0 = 1)
+    (hstrict : ∀ i j, i < j → j < nd → uk.getD i 0 < uk.getD j 0) (j : ℕ) (hj1 : 1 ≤ j) (hj2 : j + 1 < nc) :
+    ∃ k, 1 ≤ k ∧ k + 1 < nd ∧
+      0 < basisFunOne p (fnOf (computeKnotVector2 p nd nc uk fl)) (computeKnotVector2 p nd nc uk fl).length j
+            (uk.getD k 0) :=
+  kv2_column_pos p nd nc uk fl hfl hp hpn hnc3 hnd hlen hfirst hlast hstrict j hj1 hj2
+
+/-- **The matrix `NᵀN` of `approximate_curve` has a positive diagonal** on data with distinct consecutive points
+    (`Geomdl.apxN` is the matrix `N` of the model, `approximateCurve_eq` is `rfl`: rows = interior data points, columns =
+    interior basis functions, entries by `basis_function_one`) – necessary for `lu_solve` to return; no solver hypothesis
+    here.  Positive definiteness of `NᵀN` is not proved. -/
+theorem approximateCurve_normal_matrix_diag_pos (p : ℕ) (pts : List (List K)) (cds : List K) (nc : ℕ) (fl : K → ℕ)
+    (hfl : IsFloor fl) (hg : ApproxCurveOk p pts cds nc) (hpos : ∀ x ∈ cds, 0 < x) (i : ℕ) (hi : i < nc - 2) :
+    0 < ent (matrixMultiply
+      (matrixTranspose (apxN p (fnOf (computeKnotVector2 p pts.length nc (computeParams cds) fl))
+        (computeKnotVector2 p pts.length nc (computeParams cds) fl).length (computeParams cds) pts.length nc))
+      (apxN p (fnOf (computeKnotVector2 p pts.length nc (computeParams cds) fl))
+        (computeKnotVector2 p pts.length nc (computeParams cds) fl).length (computeParams cds) pts.length nc)) i i := by
+  have hl := hg.len
+  have hnd := hg.nd
+  rw [← hl]
+  exact approximateCurve_normal_diag_pos p cds nc fl hfl hg.p1 hg.pn hg.nc3 (by omega) hpos i hi
+
+/-- **`approximate_surface`, both directions**: every knot span of `kvu` / `kvv` contains an averaged parameter, and the
+    matrices `NᵀN` factorised for the two passes have positive diagonals (data whose consecutive points are distinct in
+    both directions). -/
+theorem approximateSurface_spans_and_diag (pu pv su sv : ℕ) (pts : List (List K)) (cdsU cdsV : List (List K))
+    (ncu ncv : ℕ) (fl : K → ℕ) (hfl : IsFloor fl) (hg : ApproxSurfOk pu pv su sv pts cdsU cdsV ncu ncv)
+    (hcU : ∀ c ∈ cdsU, ∀ x ∈ c, 0 < x) (hcV : ∀ c ∈ cdsV, ∀ x ∈ c, 0 < x) :
+    ((∀ s, pu ≤ s → s < ncu → ∃ k, k < su ∧
+        fnOf (computeKnotVector2 pu su ncu (averageParams cdsU su) fl) s ≤ (averageParams cdsU su).getD k 0 ∧
+        (averageParams cdsU su).getD k 0 < fnOf (computeKnotVector2 pu su ncu (averageParams cdsU su) fl) (s + 1)) ∧
+     (∀ i, i < ncu - 2 → 0 < ent (matrixMultiply
+        (matrixTranspose (apxN pu (fnOf (computeKnotVector2 pu su ncu (averageParams cdsU su) fl))
+          (computeKnotVector2 pu su ncu (averageParams cdsU su) fl).length (averageParams cdsU su) su ncu))
+        (apxN pu (fnOf (computeKnotVector2 pu su ncu (averageParams cdsU su) fl))
+          (computeKnotVector2 pu su ncu (averageParams cdsU su) fl).length (averageParams cdsU su) su ncu)) i i)) ∧
+    ((∀ s, pv ≤ s → s < ncv → ∃ k, k < sv ∧
+        fnOf (computeKnotVector2 pv sv ncv (averageParams cdsV sv) fl) s ≤ (averageParams cdsV sv).getD k 0 ∧
+        (averageParams cdsV sv).getD k 0 < fnOf (computeKnotVector2 pv sv ncv (averageParams cdsV sv) fl) (s + 1)) ∧
+     (∀ i, i < ncv - 2 → 0 < ent (matrixMultiply
+        (matrixTranspose (apxN pv (fnOf (computeKnotVector2 pv sv ncv (averageParams cdsV sv) fl))
+          (computeKnotVector2 pv sv ncv (averageParams cdsV sv) fl).length (averageParams cdsV sv) sv ncv))
+        (apxN pv (fnOf (computeKnotVector2 pv sv ncv (averageParams cdsV sv) fl))
+          (computeKnotVector2 pv sv ncv (averageParams cdsV sv) fl).length (averageParams cdsV sv) sv ncv)) i i)) :=
+  ⟨approximateSurface_dir_ok pu su ncu cdsU fl hfl hg.pu1 hg.pun hg.ncu3 hg.ndu (hg.chords hcU hcV).1,
+   approximateSurface_dir_ok pv sv ncv cdsV fl hfl hg.pv1 hg.pvn hg.ncv3 hg.ndv (hg.chords hcU hcV).2⟩
+
+/-- what `Geomdl.apxN` is: entry `(k, j)` is `basis_function_one` of the interior basis function `1 + j` at the interior
+    parameter `ū_{1+k}` – the matrix `N` of `approximate_curve` and of every pass of `approximate_surface` -/
+theorem apxN_spec (p : ℕ) (U : ℕ → K) (m : ℕ) (uk : List K) (nd nc k j : ℕ) (hk : k < nd - 2) (hj : j < nc - 2) :
+    ent (apxN p U m uk nd nc) k j = basisFunOne p U m (1 + j) (uk.getD (1 + k) 0) :=
+  apxN_ent p U m uk nc nd k j hk hj
+
 /-! ### non-vacuity: the hypotheses hold on concrete inputs (exact rationals) -/
 
 /-- the floor used by the driver satisfies `IsFloor` -/
@@ -668,6 +1022,135 @@ example : ∃ kvu kvv cp, approximateSurface 2 1 4 5 ptsA cuA cvA 3 4 flQ = some
   have := (lsqLine_minimises 2 (fnOf kvu) kvu.length (averageParams cuA 4) _ 3 _ (cols.getD j []) (hU j hj) (by norm_num)).1 y hy
   rw [hd] at this
   exact this
+
+/-! ### non-vacuity of the knot-vector, evaluated-pass and diagonal theorems -/
+
+/-- the doubles `1.0/p` (exact values): `p = 3, 6, 7, 9` are rounded DOWN (`0 < invp`, `invp · p ≤ 1`: hypotheses of
+    `knotVector_valid` / `interpolateCurve_knots_valid`), `p = 1, 2, 4, 8` are exact, `p = 5, 10` are rounded UP by the
+    relative amount `2⁻⁵⁴` (hypothesis `invp · p ≤ 1 + e` of the `…_near` theorems with `e = 2⁻⁵⁴`) -/
+example :
+    ((0:ℚ) < 6004799503160661 / 18014398509481984 ∧ (6004799503160661 / 18014398509481984 : ℚ) * ((3:ℕ):ℚ) ≤ 1) ∧
+    ((6004799503160661 / 36028797018963968 : ℚ) * ((6:ℕ):ℚ) ≤ 1) ∧
+    ((2573485501354569 / 18014398509481984 : ℚ) * ((7:ℕ):ℚ) ≤ 1) ∧
+    ((2001599834386887 / 18014398509481984 : ℚ) * ((9:ℕ):ℚ) ≤ 1) ∧
+    ((3602879701896397 / 18014398509481984 : ℚ) * ((5:ℕ):ℚ) ≤ 1 + 1 / 18014398509481984) ∧
+    ((3602879701896397 / 36028797018963968 : ℚ) * ((10:ℕ):ℚ) ≤ 1 + 1 / 18014398509481984) := by
+  refine ⟨⟨by norm_num, by norm_num⟩, by norm_num, by norm_num, by norm_num, by norm_num, by norm_num⟩
+
+/-- `interpolate_curve` with the DOUBLE `1.0/3` on the 7 data points: the returned knot vector is a valid clamped knot
+    vector (`interpolateCurve_knots_valid`) and `knotvector.check` accepts it -/
+example : ∃ kv cp, interpolateCurve 3 ptsC cdsC dbl13 = some (kv, cp) ∧ ClampedKnots 3 7 kv ∧ knotCheck 3 kv 7 = true := by
+  obtain ⟨⟨kv, cp⟩, h⟩ := resIC13
+  have hv := interpolateCurve_knots_valid 3 ptsC cdsC dbl13 kv cp okIC (by decide +kernel)
+    (by norm_num [dbl13]) (by norm_num [dbl13]) h
+  exact ⟨kv, cp, h, hv, clampedKnots_check 3 7 kv hv⟩
+
+/-- … with the double `1.0/5` (rounded up by `2⁻⁵⁴`, degree 5): `interpolateCurve_knots_valid_near` with `e = 2⁻⁵⁴`; the
+    last chord `2` is far more than the share `2⁻⁵⁴` of the total chord length `10` -/
+example : ∃ kv cp, interpolateCurve 5 ptsC cdsC dbl15 = some (kv, cp) ∧ ClampedKnots 5 7 kv := by
+  obtain ⟨⟨kv, cp⟩, h⟩ := resIC15
+  exact ⟨kv, cp, h, interpolateCurve_knots_valid_near 5 ptsC cdsC dbl15 (1 / 18014398509481984) kv cp okIC5
+    (by decide +kernel) (by norm_num [dbl15]) (by norm_num) (by norm_num [dbl15]) (by decide +kernel) h⟩
+
+/-- … and through the two-sided rounding bound `|invp · p − 1| ≤ 2⁻⁵³` (`interpolateCurve_knots_valid_double`) -/
+example : ∃ kv cp, interpolateCurve 5 ptsC cdsC dbl15 = some (kv, cp) ∧ ClampedKnots 5 7 kv := by
+  obtain ⟨⟨kv, cp⟩, h⟩ := resIC15
+  exact ⟨kv, cp, h, interpolateCurve_knots_valid_double 5 ptsC cdsC dbl15 (1 / 2 ^ 53) kv cp okIC5
+    (by decide +kernel) (by rw [abs_le]; constructor <;> norm_num [dbl15]) (by norm_num) (by decide +kernel) h⟩
+
+/-- … with `1/3` exactly, and the positive diagonal of the collocation matrix (all 7 data points) -/
+example : (∃ kv cp, interpolateCurve 3 ptsC cdsC (1 / ((3:ℕ):ℚ)) = some (kv, cp) ∧ ClampedKnots 3 7 kv) ∧
+    ∀ i, i < 7 → 0 < ent (buildCoeffMatrix 3 (fnOf (computeKnotVector 3 ptsC.length (computeParams cdsC) (1/3)))
+          (computeParams cdsC) ptsC.length) i i := by
+  constructor
+  · have h : (interpolateCurve 3 ptsC cdsC (1 / ((3:ℕ):ℚ))).isSome = true := by decide +kernel
+    obtain ⟨⟨kv, cp⟩, h⟩ := Option.isSome_iff_exists.mp h
+    exact ⟨kv, cp, h, interpolateCurve_knots_valid_exact 3 ptsC cdsC kv cp okIC (by decide +kernel) h⟩
+  · intro i hi
+    exact interpolateCurve_collocation_diag_pos 3 ptsC cdsC (1/3) okIC (by decide +kernel) (by norm_num) i hi
+
+/-- surface interpolation on the 3 × 4 grid: the theorem applied at EVERY data point (evaluated surface, both averaged
+    parametrisations enter only through the chord lists), the two knot vectors are valid, both collocation matrices
+    have a positive diagonal -/
+example : ∃ kvu kvv cp, interpolateSurface 2 2 3 4 ptsI cuI cvI (1/2) (1/2) = some (kvu, kvv, cp) ∧
+    (∀ i, i < 3 → ∀ j, j < 4 → ∀ c, c < 3 →
+      (surfacePoint 2 2 (fnOf kvu) (fnOf kvv) 3 4 cp ((averageParams cuI 3).getD i 0) ((averageParams cvI 4).getD j 0)).getD c 0
+        = (ptsGet ptsI (j + 4 * i)).getD c 0) ∧
+    ClampedKnots 2 3 kvu ∧ ClampedKnots 2 4 kvv := by
+  obtain ⟨⟨kvu, kvv, cp⟩, h⟩ := resIS
+  refine ⟨kvu, kvv, cp, h, fun i hi j hj c hc =>
+    interpolateSurface_interpolates 2 2 3 4 ptsI cuI cvI (1/2) (1/2) 3 kvu kvv cp okIS netI (by omega) h i hi j hj c hc, ?_⟩
+  exact interpolateSurface_knots_valid 2 2 3 4 ptsI cuI cvI (1/2) (1/2) kvu kvv cp okIS (by decide +kernel) (by decide +kernel)
+    (by norm_num) (by norm_num) (by norm_num) (by norm_num) h
+
+example : (∀ i, i < 3 → 0 < ent (buildCoeffMatrix 2 (fnOf (computeKnotVector 2 3 (averageParams cuI 3) (1/2)))
+          (averageParams cuI 3) 3) i i) ∧
+    (∀ j, j < 4 → 0 < ent (buildCoeffMatrix 2 (fnOf (computeKnotVector 2 4 (averageParams cvI 4) (1/2)))
+          (averageParams cvI 4) 4) j j) :=
+  interpolateSurface_collocation_diag_pos 2 2 3 4 ptsI cuI cvI (1/2) (1/2) okIS (by decide +kernel) (by decide +kernel)
+    (by norm_num) (by norm_num)
+
+/-- curve approximation: the returned knot vector is a valid clamped knot vector -/
+example : ∃ kv cp, approximateCurve 2 ptsC cdsC 4 flQ = some (kv, cp) ∧ ClampedKnots 2 4 kv ∧ knotCheck 2 kv 4 = true := by
+  obtain ⟨⟨kv, cp⟩, h⟩ := resAC
+  have hv := approximateCurve_knots_valid 2 ptsC cdsC 4 flQ kv cp flQ_floor okAC (by decide +kernel) h
+  exact ⟨kv, cp, h, hv, clampedKnots_check 2 4 kv hv⟩
+
+/-- surface approximation (4 × 5 data points, 3 × 4 control points): both knot vectors are valid, and BOTH PASSES are
+    least-squares fits against the evaluated curves of their lines – for every data column `j` and ANY competitor `y`
+    (one interior control point of 3 coordinates) the column polygon computed by the model has the smaller summed squared
+    distance to the evaluated curve; the same for every row `i` with two interior control points -/
+example : ∃ kvu kvv cp, approximateSurface 2 1 4 5 ptsA cuA cvA 3 4 flQ = some (kvu, kvv, cp) ∧
+    ClampedKnots 2 3 kvu ∧ ClampedKnots 1 4 kvv ∧
+    ∃ cols rows : List (List (List ℚ)), cp = rows.flatten ∧
+      (∀ j, j < 5 → ∀ y : List (List ℚ), y.length = 3 - 2 → NetOk 3 y →
+        lsqErrorEval 2 (fnOf kvu) (averageParams cuA 4) ((List.range 4).map (fun i => ptsA.getD (j + 5 * i) [])) 3 (cols.getD j [])
+          ≤ lsqErrorEval 2 (fnOf kvu) (averageParams cuA 4) ((List.range 4).map (fun i => ptsA.getD (j + 5 * i) [])) 3
+              ([ptsA.getD j []] ++ y ++ [ptsA.getD (j + 5 * (4 - 1)) []])) ∧
+      (∀ i, i < 3 → ∀ y : List (List ℚ), y.length = 4 - 2 → NetOk 3 y →
+        lsqErrorEval 1 (fnOf kvv) (averageParams cvA 5) ((List.range 5).map (fun j => (cols.getD j []).getD i [])) 3 (rows.getD i [])
+          ≤ lsqErrorEval 1 (fnOf kvv) (averageParams cvA 5) ((List.range 5).map (fun j => (cols.getD j []).getD i [])) 3
+              ([(cols.getD 0 []).getD i []] ++ y ++ [(cols.getD (5 - 1) []).getD i []])) := by
+  obtain ⟨⟨kvu, kvv, cp⟩, h⟩ := resA
+  have hk := approximateSurface_knots_valid 2 1 4 5 ptsA cuA cvA 3 4 flQ kvu kvv cp flQ_floor okA
+    (by decide +kernel) (by decide +kernel) h
+  obtain ⟨cols, rows, _, _, hcp, hU, hV⟩ :=
+    approximateSurface_passes_least_squares 2 1 4 5 ptsA cuA cvA 3 4 flQ kvu kvv cp 3 flQ_floor okA netA
+      (by decide +kernel) (by decide +kernel) h
+  exact ⟨kvu, kvv, cp, h, hk.1, hk.2, cols, rows, hcp, fun j hj y hy hyd => (hU j hj).2 y hy hyd,
+    fun i hi y hy hyd => (hV i hi).2 y hy hyd⟩
+
+/-- the generic knot-vector theorems applied directly to the parameters of the 7 data points (chords 2,1,2,2,1,2): the
+    hypotheses "strictly increasing from 0 to 1" hold, `compute_knot_vector` (degree 3, `1/3`) and `compute_knot_vector2`
+    (degree 2, 4 control points) build valid clamped knot vectors, every span of the latter contains a parameter and
+    every interior basis function is positive at an interior parameter -/
+example : ClampedKnots 3 7 (computeKnotVector 3 7 (computeParams cdsC) (1 / ((3:ℕ):ℚ))) ∧
+    ClampedKnots 2 4 (computeKnotVector2 2 7 4 (computeParams cdsC) flQ) ∧
+    (∀ s, 2 ≤ s → s < 4 → ∃ k, k < 7 ∧ fnOf (computeKnotVector2 2 7 4 (computeParams cdsC) flQ) s ≤ (computeParams cdsC).getD k 0 ∧
+      (computeParams cdsC).getD k 0 < fnOf (computeKnotVector2 2 7 4 (computeParams cdsC) flQ) (s + 1)) ∧
+    (∀ j, 1 ≤ j → j + 1 < 4 → ∃ k, 1 ≤ k ∧ k + 1 < 7 ∧
+      0 < basisFunOne 2 (fnOf (computeKnotVector2 2 7 4 (computeParams cdsC) flQ))
+            (computeKnotVector2 2 7 4 (computeParams cdsC) flQ).length j ((computeParams cdsC).getD k 0)) := by
+  obtain ⟨g1, g2, g3, g4⟩ := computeParams_ok cdsC (by decide) (by decide +kernel)
+  exact ⟨knotVector_valid_exact 3 7 _ (by omega) (by omega) g1 g2 g3 g4,
+    knotVector2_valid 2 7 4 _ flQ flQ_floor (by omega) (by omega) (by omega) g1 g2 g3 g4,
+    fun s h1 h2 => knotVector2_span_has_param 2 7 4 _ flQ flQ_floor (by omega) (by omega) (by omega) g1 g2 g3 g4 s h1 h2,
+    fun j h1 h2 => knotVector2_column_pos 2 7 4 _ flQ flQ_floor (by omega) (by omega) (by omega) (by omega) g1 g2 g3 g4 j h1 h2⟩
+
+/-- curve approximation (7 data points, degree 2, 4 control points): every one of the two knot spans contains a
+    parameter, and `NᵀN` (2 × 2) has a positive diagonal -/
+example : (∃ kv cp, approximateCurve 2 ptsC cdsC 4 flQ = some (kv, cp) ∧
+      ∀ s, 2 ≤ s → s < 4 → ∃ k, k < 7 ∧ fnOf kv s ≤ (computeParams cdsC).getD k 0 ∧ (computeParams cdsC).getD k 0 < fnOf kv (s + 1)) ∧
+    ∀ i, i < 4 - 2 → 0 < ent (matrixMultiply
+      (matrixTranspose (apxN 2 (fnOf (computeKnotVector2 2 ptsC.length 4 (computeParams cdsC) flQ))
+        (computeKnotVector2 2 ptsC.length 4 (computeParams cdsC) flQ).length (computeParams cdsC) ptsC.length 4))
+      (apxN 2 (fnOf (computeKnotVector2 2 ptsC.length 4 (computeParams cdsC) flQ))
+        (computeKnotVector2 2 ptsC.length 4 (computeParams cdsC) flQ).length (computeParams cdsC) ptsC.length 4)) i i := by
+  constructor
+  · obtain ⟨⟨kv, cp⟩, h⟩ := resAC
+    exact ⟨kv, cp, h, fun s h1 h2 =>
+      approximateCurve_span_has_param 2 ptsC cdsC 4 flQ kv cp flQ_floor okAC (by decide +kernel) h s h1 h2⟩
+  · exact fun i hi => approximateCurve_normal_matrix_diag_pos 2 ptsC cdsC 4 flQ flQ_floor okAC (by decide +kernel) i hi
 
 /-- what the guards exclude: with TWO control points per direction the model returns the bilinear patch (the real
     `approximate_surface(…, ctrlpts_size_u=2, ctrlpts_size_v=2)` raises `IndexError`, finding F-11a) – `ApproxSurfOk` fails -/
